@@ -227,6 +227,9 @@ pub struct Recorder {
     pub lines: Vec<Value>,
     /// Some(symbol table) = appearance features are logged for spec/tracker/VisualTrace.tla
     pub vis: Option<Vec<Vec<f32>>>,
+    /// a simple tracker skips calls without detections as well (to be comparable with a batch tracker, whose requests
+    /// cannot express a scene without detections)
+    pub skip_empty: bool,
 }
 
 fn symbol_of(table: &[Vec<f32>], f: &Option<Vec<f32>>) -> i64 {
@@ -259,7 +262,7 @@ impl Recorder {
         let header = json!({"ev": "config", "max_idle": cfg.max_idle, "thr": thr, "margin": margin, "cons": cons, "eps": 3,
                             "kind": cfg.kind, "shards": cfg.shards});
         let drv = cfg.build();
-        Recorder { cfg, drv, lines: vec![header], vis: None }
+        Recorder { cfg, drv, lines: vec![header], vis: None, skip_empty: false }
     }
 
     /// switches the logging of appearance features on (VisualSort kinds): the configuration line gets the record "v"
@@ -285,7 +288,7 @@ impl Recorder {
     }
 
     pub fn predict(&mut self, scene: u64, dets: &[Det]) {
-        if dets.is_empty() && self.drv.is_batch() {
+        if dets.is_empty() && (self.drv.is_batch() || self.skip_empty) {
             // a batch request cannot express a scene without detections: no call, no event
             return;
         }
@@ -543,6 +546,7 @@ pub fn main(opts: &Opts) {
         None
     };
     let mut rec = if opts.get("features").is_some() { Recorder::new(cfg).with_features() } else { Recorder::new(cfg) };
+    rec.skip_empty = opts.get("skip-empty").is_some();
     if let Some(p) = opts.get("aw") {
         // collection periodicity set at the start of the run (the counter is shared by all scenes)
         rec.set_aw(p.parse().unwrap());
